@@ -225,6 +225,28 @@ func C16(p *core.Prog, rep *core.Report) {
 	if !closeTouch {
 		rep.OK("PS4", core.FuncKey(cl)+"|touch-under-lock", "Close performs no file-system mutation after it released the directory lock (the lock file itself is never removed: every opener must lock the same inode)", p.Pos(cl.Pos()), true)
 	}
+	// every other public entry point keeps the lock: entered locked, it returns locked on every path
+	var leak []string
+	nE := 0
+	for _, fn := range publicEntries(p) {
+		if fn == cl {
+			continue
+		}
+		nE++
+		for _, e := range eng.Run(fn, "L", "") {
+			if e.A != "L" {
+				leak = append(leak, fmt.Sprintf("%s returns at %s with the directory lock %s", core.FuncKey(fn), p.InstrPos(e.Ret), lockState(e.A)))
+			}
+		}
+	}
+	for _, f := range eng.Findings {
+		if !strings.Contains(f.Construct, "touch-under-lock") {
+			ob := rep.Bad(f.Rule, f.Construct, f.Msg, f.Pos, f.Msg)
+			ob.Path, ob.Stack = f.Trace, f.Stack
+		}
+	}
+	eng.Findings = nil
+	rep.Check(len(leak) == 0, "PS4", "lock-survives-api", fmt.Sprintf("none of the %d other public entry points (Put ... Merge, Backup, batches) releases the directory lock of the open database", nE), "", strings.Join(sortedStr(leak), "; ")+" - a second Open then succeeds while the first database is still open", true)
 	rep.Stats["activations"] = eng.Activations
 	rep.Stats["path_states"] = eng.StatesSeen
 	rep.Assumptions = append(rep.Assumptions,
